@@ -336,7 +336,10 @@ pub fn last<T: AsRef<Path>>(path: T) -> RvResult<String> {
 /// assert_eq!(sys::mash("/foo", "/bar"), PathBuf::from("/foo/bar"));
 /// ```
 pub fn mash<T: AsRef<Path>, U: AsRef<Path>>(dir: T, base: U) -> PathBuf {
-    let base = trim_prefix(base, path::MAIN_SEPARATOR.to_string());
+    let mut base = trim_prefix(base, path::MAIN_SEPARATOR.to_string());
+    while base.has_root() {
+        base = trim_prefix(base, path::MAIN_SEPARATOR.to_string());
+    }
     let path = dir.as_ref().join(base);
     path.components().collect::<PathBuf>()
 }
